@@ -148,6 +148,8 @@ EShutDone ==
 EShutCancel ==
   /\ Is("shut-cancel") /\ Once("shc", Ev.n) /\ Marked("shut", Ev.n)
   /\ IsJob(cfg, Ev.n)
+  \* the cancellation is delivered in the instant it was requested
+  /\ S.tsc[Ev.n] = S.now \/ StalledSince(S.tsc[Ev.n])
   /\ IF cfg.scdur[Ev.n] > 0
      THEN S.sh[Ev.n] = "cing" /\ S' = [S EXCEPT !.tsc[Ev.n] = S.now]
      ELSE S.sh[Ev.n] = "cancelled" /\ Same
@@ -288,7 +290,7 @@ Why(C, X, e) ==
              ELSE IF X.sh[n] = "none" THEN "shut-unexpected"
              ELSE "shut-other")
        [] e.k = "shut-done" -> "shut-done-unexpected"
-       [] e.k = "shut-cancel" -> "shut-cancel-unexpected"
+       [] e.k = "shut-cancel" -> (IF X.sh[n] \in {"cing", "cancelled"} /\ X.tsc[n] # X.now THEN "shut-cancel-late" ELSE "shut-cancel-unexpected")
        [] e.k = "shut-cancel-done" -> "shut-cancel-done-early"
        [] e.k = "snap" -> "predicates"
        [] e.k = "stall" -> "stall-other"
@@ -309,7 +311,10 @@ Report ==
 (* frontier report for the diagnosis pass: every state prints its position; *)
 (* the driver keeps the states with the greatest l                          *)
 Frontier ==
-  /\ IF Has THEN PrintT(<<"AT", tid, l, Ev.k, Ev.n, Why(cfg, S, Ev)>>) ELSE PrintT(<<"ACC", tid>>)
-  /\ (l = 1 /\ marks = {}) => PrintT(<<"SYM", tid, Symptoms(cfg, Evs)>>)
+  \* single strings: TLC breaks long tuples over several lines
+  /\ IF Has THEN PrintT("AT|" \o ToString(tid) \o "|" \o ToString(l) \o "|" \o Ev.k \o "|" \o ToString(Ev.n)
+                         \o "|" \o Why(cfg, S, Ev))
+     ELSE PrintT(<<"ACC", tid>>)
+  /\ (l = 1 /\ marks = {}) => PrintT("SYM|" \o ToString(tid) \o "|" \o ToString(Symptoms(cfg, Evs)))
 
 =============================================================================
